@@ -242,11 +242,13 @@ namespace nmtools::utl
         reference at(size_type i)
         {
             // TODO: assert/throw
+            NMTOOLS_VERIF_BOUNDS(4,i,size_);
             return buffer_[i];
         }
 
         const_reference at(size_type i) const
         {
+            NMTOOLS_VERIF_BOUNDS(4,i,size_);
             return buffer_[i];
         }
 
@@ -257,11 +259,13 @@ namespace nmtools::utl
 
         reference operator[](size_type i) noexcept
         {
+            NMTOOLS_VERIF_BOUNDS(4,i,size_);
             return buffer_[i];
         }
 
         const_reference operator[](size_type i) const noexcept
         {
+            NMTOOLS_VERIF_BOUNDS(4,i,size_);
             return buffer_[i];
         }
 
